@@ -1036,6 +1036,12 @@ GEN_SRC.update({n: gen_src(n) for n in ("SrcFasta", "SrcFastq")})
 EXTRACTORS["C11"] = EXTRACTORS.get("C11", []) + [GEN_SRC[n] for n in ("SrcFasta", "SrcFastq")]
 
 
+# genhmm: the generic HMM algorithms (C14) — dialect "hmm" of tools/rs2lean_genhmm.py; Thm/C14.lean imports
+# RbV.Thm.GenSrcHmm* and restates the theorems
+TRANSLATOR_MODULES.append("rs2lean_genhmm")
+GEN_SRC.update({n: gen_src(n) for n in ("SrcHmmViterbi", "SrcHmmForward", "SrcHmmBackward")})
+EXTRACTORS["C14"] = EXTRACTORS.get("C14", []) + [GEN_SRC[n] for n in ("SrcHmmViterbi", "SrcHmmForward", "SrcHmmBackward")]
+
 def main():
     ap = argparse.ArgumentParser()
     ap.add_argument("--repo", default=os.environ.get("VERIF_REPO", "/repo"))
